@@ -431,17 +431,21 @@ Definition sig_ok (r : crow) : bool :=
   end.
 Lemma sig_checked : forallb sig_ok CANON = true.
 Proof. vm_compute. reflexivity. Qed.
+Lemma in_map_pair {A} (g : string -> A) l name sg :
+  In (name, sg) (map (fun n => (n, g n)) l) -> In name l /\ sg = g name.
+Proof. intro H. apply in_map_iff in H as (n & E & H). injection E as E1 E2. subst. auto. Qed.
+
 Theorem canonical_signatures cfg name sg :
   In (name, sg) (mixin_signatures cfg) ->
   exists r i o, In r CANON /\ cr_method r = name /\ sg = Some (i, o) /\ i = cr_in r /\
                 (cr_out r = EMPTY -> o = "None") /\ (cr_out r <> EMPTY -> o = cr_out r).
 Proof.
-  unfold mixin_signatures. intro H. apply in_map_iff in H as (n & E & H). inversion E. subst n sg. clear E.
+  unfold mixin_signatures. intro H. apply in_map_pair in H as [H E2].
   apply mixin_selection_spec in H as (r & R1 & R2 & _).
   pose proof (proj1 (forallb_forall _ _) sig_checked r R1) as C. unfold sig_ok in C. rewrite R2 in C.
   destruct (assoc name MIXINS_MAP_FULL) as [[i o]|]; [|discriminate].
   apply andb_true_iff in C as [C1 C2]. apply String.eqb_eq in C1.
-  exists r, i, o. split; [exact R1|]. split; [exact R2|]. split; [reflexivity|]. split; [exact C1|]. split.
+  exists r, i, o. split; [exact R1|]. split; [exact R2|]. split; [exact E2|]. split; [exact C1|]. split.
   - intro E. rewrite E, String.eqb_refl in C2. now apply String.eqb_eq.
   - intro E. apply String.eqb_neq in E. rewrite E in C2. now apply String.eqb_eq.
 Qed.
@@ -505,3 +509,21 @@ Definition ex_override : config :=
         [["GetWidget"; "SetIamPolicy"]] false.
 Example ex_override_yields : has_iam_overrides ex_override = true /\ mixin_names ex_override = [].
 Proof. vm_compute. split; reflexivity. Qed.
+
+(* rules for every method but no API listed: nothing is selected; one usable binding parsed as written *)
+Definition ex_unlisted : config :=
+  mkCfg ["google.example.Other"] (c_rules ex_cfg) [["GetWidget"]] false.
+Example ex_unlisted_none :
+  has_listed LOC_API ex_unlisted = false /\ has_listed IAM_API ex_unlisted = false /\ has_listed OPS_API ex_unlisted = false /\
+  mixin_names ex_unlisted = [] /\ client_methods Async ex_unlisted = [].
+Proof. vm_compute. repeat split. Qed.
+Example ex_parse_binding :
+  mem_str "post" ["get"; "put"; "post"; "delete"; "patch"] = true /\ convert_uri "/v1/{resource=projects/*}:setIamPolicy" = "/v1/{resource=projects/*}:setIamPolicy" /\
+  body_attr "*" = "*" /\ convert_uri "/v1/{class=x/*}" = "/v1/{class_=x/*}".
+Proof. vm_compute. repeat split. Qed.
+(* hypotheses of the lookup and stub theorems hold of ex_cfg: it has client methods with a table key and stub properties *)
+Example ex_cfg_surface :
+  c_add_iam ex_cfg = false /\ In (mkM "get_operation" (Some "get_operation") "name" false) (client_methods Sync ex_cfg) /\
+  map (fun s => s_name s) (grpc_stubs ex_cfg) = ["GetOperation"; "ListLocations"; "SetIamPolicy"] /\
+  In ("SetIamPolicy", Some ("google.iam.v1.SetIamPolicyRequest", "google.iam.v1.Policy")) (mixin_signatures ex_cfg).
+Proof. vm_compute. repeat split; auto. Qed.
